@@ -29,6 +29,9 @@ func (p *Prog) BuildIndex() *Index {
 		if fn.Origin() != nil && fn.Origin() != fn {
 			continue
 		}
+		if fn.Synthetic != "" && fn.Parent() == nil && !strings.HasPrefix(fn.Synthetic, "package initializer") {
+			continue // wrappers, thunks, bound-method closures: not source code
+		}
 		for _, b := range fn.Blocks {
 			for _, in := range b.Instrs {
 				if c, ok := in.(ssa.CallInstruction); ok {
